@@ -66,6 +66,9 @@ def check_names(t: sg.T, info: Dict[str, Any], path: str = "") -> Optional[str]:
     """struct field names / json tags / order against the schema (names outside [a-z]+ are C15's)."""
     want = sorted(t.fields, key=lambda f: f[0])
     got = info["fields"]
+    if info["size"] != info["size_method"]:
+        return (f"{path}{info['name']}: Size() returns {info['size_method']} but the BYTES_LENGTH_ constant is "
+                f"{info['size']}")
     if [f["number"] for f in got] != [n for n, _, _ in want]:
         return f"{path}{info['name']}: struct fields are not in field-number order: {[f['number'] for f in got]}"
     for (n, nm, ft), g in zip(want, got):
@@ -94,7 +97,7 @@ def run(ck: Check) -> None:
                                    "no axioms (Print Assumptions: closed)"]
     ck.try_prove("C19.v", model_vo=("theories/GoEqb.vo",))
 
-    ns, nv = (120, 3) if ck.quick else (1500, 6)
+    ns, nv = (120, 2) if ck.quick else (1500, 6)
     cases: List[Tuple[sg.Schema, List[Any], str]] = []
     for j in pywire.load_corpus(ck.prop):
         s = sg.schema_from_json(j["schema"])
@@ -106,7 +109,7 @@ def run(ck: Check) -> None:
     jobs = [dict(id=i, dir=os.path.join(ck.dir, f"s{i}"), files=s.texts) for i, (s, _, _) in enumerate(cases)]
     results = run_workers("run_go.py", jobs, chunk=max(5, len(jobs) // 32))
 
-    sh = pyside.Shards(ck, "c19", per_shard=20)
+    sh = pyside.Shards(ck, "c19", per_shard=8)
     n_eval = 0
     distinct = set()
     impl_fail = 0
@@ -136,7 +139,7 @@ def run(ck: Check) -> None:
             continue
         bad = check_names(s.top, info)
         if bad:
-            ck.violation("Go struct field names / json tags / order do not follow the schema: " + bad,
+            ck.violation("Go struct declaration (field names / json tags / order / Size()) does not follow the schema: " + bad,
                          {"schema": sg.schema_to_json(s), "origin": origin, "detail": bad,
                           "go": excerpt(r["go"])}, found_input=True)
         defs = (f"Definition t_{i} : ty := {s.coq_ty()}.\n"
